@@ -261,7 +261,7 @@ def check_slot_records(res, db, lcs) -> int:
 # their liveness is value-dependent and not decided by this rule
 COUNTER_GATED_PREFIXES = ("Data.contact.", "Data.efc.")
 
-def check_flag_conditioned_liveness(res, db, entry: str, allowed: set) -> int:
+def check_flag_conditioned_liveness(res, db, entry: str, allowed: set, option_enums=None) -> int:
   """R-LIVE.6: the field-level live-in analysis treats a definition that MAY run as a kill. Disable/enable flags are the
   configuration atoms under which that is unsound: for each single flag (DisableBit set / EnableBit set) this rule asks,
   in three-valued logic over the host path conditions, whether some read of a non-state Data field stays reachable
@@ -293,11 +293,18 @@ def check_flag_conditioned_liveness(res, db, entry: str, allowed: set) -> int:
       ms = sorted(set(_re.findall(r"DisableBit\.(\w+)", text)))
       for a_, b_ in itertools.combinations(ms, 2):
         pairs.add((a_, b_))
-  assignments = [(f, v, None) for f, v in flags] + [("DisableBit." + a_, True, {"DisableBit." + b_: True}) for a_, b_ in sorted(pairs)]
+  assignments = [(f, v, None, None) for f, v in flags] + [("DisableBit." + a_, True, {"DisableBit." + b_: True}, None) for a_, b_ in sorted(pairs)]
+  # option enums (m.opt.integrator == IntegratorType.X ...): one assignment per member, no flag assumed
+  for attr, cls in (option_enums or {}).items():
+    for mem in db.sm.enums.get(cls, {}):
+      assignments.append(("DisableBit.__none__", False, None, (attr, cls, mem)))
   n = 0
-  for flag, val, more in assignments:
+  for flag, val, more, opt in assignments:
     env = FlagEnv(flag, val, more)
     label = flag if not more else flag + "+" + "+".join(sorted(more))
+    if opt is not None:
+      env.enum_assign = {opt[0]: (opt[1], opt[2])}
+      label = f"{opt[0]}={opt[1]}.{opt[2]}"
     memo = {}
 
     def dead(pc):
@@ -334,8 +341,15 @@ def check_flag_conditioned_liveness(res, db, entry: str, allowed: set) -> int:
           for a_ in cands[:8]:
             for v_ in (True, False):
               env2 = FlagEnv(flag, val, more)
+              env2.enum_assign = dict(env.enum_assign)
               env2.atoms = {a_: v_}
               if env2.pc_host(pc) is True and all(env2.pc_host(dpc) is False for _, dpc, _, _ in before):
+                # the flag / option must be needed: if the model atom alone already removes every definition, the
+                # read is vacuous for such models (e.g. no tendons: the kernel's loop over tendons is empty)
+                env3 = FlagEnv("DisableBit.__none__", False)
+                env3.atoms = {a_: v_}
+                if all(env3.pc_host(dpc) is False for _, dpc, _, _ in before):
+                  continue
                 hit = True
                 note = f" and `{a_}` {'true' if v_ else 'false'}"
                 break
@@ -350,7 +364,7 @@ def check_flag_conditioned_liveness(res, db, entry: str, allowed: set) -> int:
             Finding(
               "R-LIVE.6",
               f"{entry}|{label}|{k}|read-without-live-definition",
-              f"with {label} set{note}, every definition of {k} that precedes its read by {name} in {entry.split('.')[-1]}() is unreachable ({', '.join(sorted({(d[3].ev.name or d[3].ev.kind) for d in before}))[:120]}) while the read stays reachable: the value read is left over from an earlier call, so the result is not a function of the integration state",
+              f"with {label}{' set' if opt is None else ''}{note}, every definition of {k} that precedes its read by {name} in {entry.split('.')[-1]}() is unreachable ({', '.join(sorted({(d[3].ev.name or d[3].ev.kind) for d in before}))[:120]}) while the read stays reachable: the value read is left over from an earlier call, so the result is not a function of the integration state",
               loc,
             ),
           )
